@@ -2,14 +2,10 @@
    first-appearance lists of the table (Model/TTable.v: dedup / filter). *)
 From Coq Require Import String Ascii List Bool Arith Lia.
 From KV Require Import Lib.Str Lib.StrOps Lib.ODict Lib.TableDef Model.TTable Model.Engine Model.EngineSM
-                       Spec.RefExpand Spec.RefExpand16 Proofs.EngineBlock.
+                       Model.EngineDomain16 Spec.RefExpand Spec.RefExpand16 Proofs.EngineBlock.
 Import ListNotations.
 Open Scope string_scope.
 Open Scope list_scope.
-
-Definition row_of (r : EngineSM.row) : TableDef.row :=
-  mkRow (r_state r) (r_event r) (r_next r) (r_action r) (r_guard r).
-Definition table_of (tt : list EngineSM.row) : table := map row_of tt.
 
 Definition inb (y : string) (l : list string) : bool := existsb (String.eqb y) l.
 Definition adds (acc l : list string) : list string := fold_left (fun a x => add_new x a) l acc.
@@ -179,10 +175,10 @@ Qed.
 (* the element lists of the engine's model are the reference's element lists of the table *)
 Theorem model_elements tt structs protos msgs m :
   tt_model tt structs protos msgs = Some m ->
-  Model.EngineDomain16.elements_of_model m = elements_of (table_of tt) structs protos msgs.
+  elements_of_model m = elements_of (table_of tt) structs protos msgs.
 Proof.
   unfold tt_model. destruct (fold_left tps_step tt (Some [])) as [tps|]; [|discriminate]. intros E. inversion E. subst m. clear E.
-  unfold Model.EngineDomain16.elements_of_model, elements_of. cbn [sm_states sm_events sm_actions sm_guards sm_actionsigs if_structs if_protos if_msgs].
+  unfold elements_of_model, elements_of. cbn [sm_states sm_events sm_actions sm_guards sm_actionsigs if_structs if_protos if_msgs].
   rewrite tt_states_first_appearance, tt_actions_first_appearance, tt_guards_first_appearance, tt_sigs_first_appearance.
   rewrite add_missing_adds, tt_events_first_appearance. reflexivity.
 Qed.
